@@ -1536,6 +1536,18 @@ fn run(a: &Args) {
                                             cur = (pos + 1) % n;
                                         }
                                     }
+                                    // every interest that was queued when the iteration began is handled by it: the loop drains
+                                    // its queue each time it is woken (nothing is pushed during an iteration without a
+                                    // schedule). An interest left behind waits for a wake-up that may never come — a Resume or
+                                    // Stop behind a redundant Pause (seed13 C01-26), a replacement worker's handle …
+                                    if quiet && !report.exited && w.waker.queued() > 0 {
+                                        let msg = format!(
+                                            "the iteration returned with {} interest(s) still in the waker queue (of {queued_before} queued when it began; nothing was pushed meanwhile): the accept thread goes back to sleep without handling a command / notification it was woken for",
+                                            w.waker.queued());
+                                        for p in ["C05", "C03", "C01", "C06", "C08"] {
+                                            w.t3.push((p.into(), msg.clone()));
+                                        }
+                                    }
                                     // C04: the round-robin cursor moves only when a connection is dispatched (or the set of
                                     // workers changes): an iteration that dispatched nothing — whatever notifications it
                                     // processed — leaves it where it was, so the next connection goes to the worker whose
